@@ -90,6 +90,12 @@ func (o *Out) Emit(comp, id, payload, implRes string, nontrivial bool) {
 
 func (o *Out) Count(key string) { o.Stats[key]++ }
 
+// Pre records the case that is about to run, so that a crash of the whole process
+// (a panic in a goroutine no recover can catch) still leaves a replayable input.
+func (o *Out) Pre(comp, id, payload string) {
+	_ = os.WriteFile(filepath.Join(o.dir, o.name+".last"), []byte(comp+" "+id+" "+payload+"\n"), 0o644)
+}
+
 func (o *Out) Close() error {
 	o.ops.Flush()
 	o.impl.Flush()
